@@ -429,8 +429,9 @@ def eval_scene(o, rng, scene, kinds, distinct):
         o.violate('raises', dict(wit0, where='unrestricted find_islands', traceback=traceback.format_exc()[-600:]))
         return
     upix = [island_pixels(i) for i in unres]
-    if any(p is None for p in upix):
-        raise RuntimeError('harness: unrestricted island with inconsistent box/mask (C02 territory) in a C11 scene')
+    if any(p is None or any(not (0 <= q[0] < im.shape[0] and 0 <= q[1] < im.shape[1]) for q in p) for p in upix):
+        raise RuntimeError('harness: unrestricted island with inconsistent box/mask or pixels off the image (C02 '
+                           'territory) in a C11 scene')
     uset = set(upix)
     snr = floodfill.snr_image(im, bkg, rms)
     shape = im.shape
